@@ -58,6 +58,9 @@ WITNESSES = {
     'lang:assert-percent': prog([fn(0, [], 'int', seq(('let', False, 1, 'int', N(7)), ('assert', ('bin', 'eq', ('bin', 'mod', V(1), N(2)), N(1))), P(V(1)), ('ret', N(0))))]),
     # '??!' inside a string literal is a C trigraph
     'lang:string-trigraph': prog([fn(0, [], 'int', seq(P(('str', b'a??!b')), ('ret', N(0))))]),
+    # a void function whose code ends with the RET of a conditional return: the last BYTE is RET, but the end is reachable
+    'lang:fall-off-function-end': prog([fn(1, [(2, 'bool')], 'void', ('if', V(2), ('ret', None), ('skip',))),
+                                        fn(0, [], 'int', seq(P(N(1)), ('expr', ('call', 1, [('bool', False)])), P(N(2)), ('ret', N(7))))]),
     # run-time overflow (through variables): wraps
     'lang:runtime-overflow': prog([fn(0, [], 'int', seq(('let', False, 1, 'int', N(9223372036854775807)), P(('bin', 'add', V(1), N(1))),
                                                         P(('bin', 'mul', V(1), V(1))), P(('un', 'neg', ('bin', 'sub', ('un', 'neg', V(1)), N(1)))), ('ret', N(0))))]),
